@@ -209,7 +209,7 @@ def configs(tier):
         shape=(1, 1))
     for method, alpha, it in (("linearmixing", -1.0, 2), ("broyden1", -0.5, 1), ("newton", None, 1)):
         add("equilibrium/%s/it%d" % (method, it), rf1d, entry="equilibrium", method=method, maxiter=it, alpha=alpha)
-    add("equilibrium/anderson_acc/it3", rf1d, entry="equilibrium", method="anderson_acc", maxiter=3)
+    add("equilibrium/anderson_acc/it3", rf1d, entry="equilibrium", method="anderson_acc", maxiter=3, opts={"timeout_ms": 45000})
     for method, alpha, it in (("linearmixing", -1.0, 2), ("broyden1", -0.5, 1), ("newton", None, 1)):
         add("minimize/%s/it%d" % (method, it), rf1d, entry="minimize", method=method, maxiter=it, alpha=alpha)
     add("rootfinder2d/newton/affine", rf2d, entry="rootfinder", method="newton", maxiter=2)
